@@ -71,6 +71,33 @@ CHECKS.update({
         note='Trusted: refninja as reading of the Ninja manual (ninja is not installed). VS/Xcode backends are not covered.'),
 })
 
+CHECKS.update({
+    'C06': dict(
+        category='exploration', design_ref='DESIGN.md §4 C06',
+        technique='exhaustive cross product of environment answers (hash seed x environ order x directory-listing order x build-dir history) per project, real meson setup at identical paths, byte comparison of generated text and stat comparison across no-op reconfigure',
+        text='For hand-written feature-rich projects, projgen shapes and corpus projects, fresh `meson setup` runs at identical absolute paths under every '
+             'combination of PYTHONHASHSEED (separate interpreter per seed), os.environ insertion order and os.listdir/scandir order must produce '
+             'byte-identical build.ninja, meson-info/intro-*.json, configure_file outputs, .pc files and depmf.json; cross-seed reconfigure must equal '
+             'fresh; a no-op reconfigure must keep build.ninja content and must not touch configure_file outputs / .pc files / alias symlinks.',
+        note='Decided for the enumerated seed list only (evidence reports how many distinct set orders the seeds realise). build.ninja and meson-info files are only required to keep their content, not their mtime.'),
+    'C10': dict(
+        category='exploration', design_ref='DESIGN.md §4 C10',
+        technique='exhaustive decision table (6 480 cells) of dependency() lookups through real meson setup against a decision function transcribed from the docs; exhaustive lookup sequences <= 3; fault enumeration over archive/hash corruption classes x acquisition locations',
+        text='Every cell of the documented fallback policy (system version x constraint x provider x subproject version x wrap_mode x force_fallback_for x required x '
+             'allow_fallback) is evaluated by the real `meson setup --backend=none` with pkg-config files in a private libdir and file:// wraps, batched as capsule '
+             'subprojects; repeated-lookup consistency over all sequences <= 3; every corruption class of source/patch archives at every acquisition location with '
+             'invariants on subprojects/ and the package cache and on a second run.',
+        note='Trusted: decide() as transcription of dependency.yaml / Subprojects.md / Wrap manual; docs-silent cells are skipped and counted; only [wrap-file] with file:// URLs (no network, no git/hg/svn).'),
+    'C14': dict(
+        category='exploration', design_ref='DESIGN.md §4 C14',
+        technique='bounded exhaustive enumeration of templates (<= 3/4 fragments of a 27-fragment alphabet) x 100 data sets x 3 formats through the real do_conf_str/do_conf_file/dump_conf_header; marker-differential (no-rescan) oracle plus a reference scanner',
+        text='Every template built from placeholder-like fragments is substituted by the real code under every data set; the meson-format output must equal '
+             'the template\'s structure (obtained with inert marker values) with the values textually inserted (so a value is never re-scanned), and must agree '
+             'with a reference scanner written from Configuration.md and calibrated on the pinned config6/config7 expectations; placeholder-free text is copied '
+             'byte for byte; missing-name sets are exact; template-less headers contain exactly the keys, sorted, rendered per type.',
+        note='Tier A only (in-process); undocumented cmake-format forms are on the unspecified list and skipped (counted).'),
+})
+
 NOT_YET = {}
 
 
